@@ -57,6 +57,7 @@ func Main() int {
 	list := flag.Bool("list", false, "list properties")
 	nomut := flag.Bool("no-mutants", false, "thorough tier without the sensitivity suite")
 	onlyMutants := flag.String("only-mutant", "", "run only this mutant of the sensitivity suite (debugging)")
+	noBenign := flag.Bool("no-benign", false, "thorough tier: skip the behaviour-preserving variants (debugging)")
 	onlyBenign := flag.Bool("only-benign", false, "thorough tier: run only the behaviour-preserving variants (debugging)")
 	flag.Parse()
 	if *list {
@@ -183,6 +184,9 @@ func Main() int {
 	if p.NeedSSA && len(p.Patterns) == 1 && p.Patterns[0] == "./..." {
 		par = 3
 	}
+	if n, err := strconv.Atoi(os.Getenv("VERIF_PAR")); err == nil && n > 0 {
+		par = n
+	}
 	sem := make(chan struct{}, par)
 	var mu sync.Mutex
 	var wg sync.WaitGroup
@@ -205,7 +209,7 @@ func Main() int {
 			}
 		}
 		for _, m := range p.Benign {
-			if *onlyMutants == "" || *onlyMutants == m.Name {
+			if (*onlyMutants == "" || *onlyMutants == m.Name) && !*noBenign {
 				mutants = append(mutants, m)
 				benign[m.Name] = true
 			}
